@@ -9,6 +9,7 @@ import (
 	"strconv"
 	"strings"
 	"sync"
+	"sync/atomic"
 	"time"
 
 	"github.com/talostrading/sonic"
@@ -149,6 +150,76 @@ func runPost(c *Case) []string {
 				return "DEADLOCK"
 			}
 			return tail()
+		case "race":
+			// race <rounds> <maxspins> <seed>: the loop blocks in epoll_wait; every round a handler posts a second handler
+			// and releases a goroutine that posts a third one a random few hundred nanoseconds later - around the moment the
+			// loop is dispatching.  A lost wake-up leaves the loop asleep with a handler queued.
+			rounds, maxSpins, seed := atoi(a[0]), atoi(a[1]), atoi(a[2])
+			var stop, quit atomic.Bool
+			var ran, release, spins, sink atomic.Int64
+			loopFin := make(chan struct{})
+			d.work <- func() {
+				for !stop.Load() {
+					_ = d.ioc.RunOne()
+				}
+				close(loopFin)
+			}
+			posterFin := make(chan struct{})
+			go func() {
+				defer close(posterFin)
+				next := int64(1)
+				for {
+					for release.Load() != next {
+						if quit.Load() {
+							return
+						}
+					}
+					for i, n := int64(0), spins.Load(); i < n; i++ {
+						sink.Add(1)
+					}
+					_ = d.ioc.Post(func() { ran.Add(1) })
+					next++
+				}
+			}()
+			rng := rand.New(rand.NewSource(int64(seed)))
+			lost := int64(0)
+			for round := int64(1); round <= int64(rounds); round++ {
+				ran.Store(0)
+				spins.Store(rng.Int63n(int64(maxSpins)))
+				r := round
+				_ = d.ioc.Post(func() {
+					_ = d.ioc.Post(func() { ran.Add(1) })
+					release.Store(r)
+				})
+				deadline := time.Now().Add(2 * time.Second)
+				for i := 0; ran.Load() != 2; i++ {
+					if i%1024 == 1023 {
+						if time.Now().After(deadline) {
+							lost = round
+							break
+						}
+						runtime.Gosched()
+					}
+				}
+				if lost != 0 {
+					break
+				}
+			}
+			quit.Store(true)
+			<-posterFin
+			if lost != 0 {
+				d.dead = true
+				return fmt.Sprintf("LOST-WAKEUP round=%d ran=%d posted=%d pending=%d", lost, ran.Load(), d.ioc.Posted(), d.ioc.Pending())
+			}
+			_ = d.ioc.Post(func() { stop.Store(true) })
+			select {
+			case <-loopFin:
+				<-d.done
+			case <-time.After(3 * time.Second):
+				d.dead = true
+				return "DEADLOCK"
+			}
+			return fmt.Sprintf("race rounds=%d lost=0 pending=%d posted=%d", rounds, d.ioc.Pending(), d.ioc.Posted())
 		case "stress":
 			// stress <goroutines> <handlers each> <nested per handler> <seed>: posters run concurrently with the loop,
 			// which also arms and disarms a timer (its own registrations touch the same counter)
